@@ -3,6 +3,7 @@
 CONSTANTS
   Interps = {"i1"}
   UnwindOnFailure = TRUE
+  DetachCallerEnv = TRUE
   Mode = "c11"
   ModSeq <- Mods3
   MaxOut = 2
